@@ -359,6 +359,39 @@ def State.clientPacket (s : State) (c : Nat) (p : Packet) : State :=
 /-- bytes from the client that the listener's decoder refuses -/
 def State.malformed (s : State) (c : Nat) : State := (s.linkEnds c .protocolError).settle
 
+/-- what the listener's decoder makes of bytes the client wrote: the packets in front, and whether
+    the decoder then refuses what follows (an incomplete frame at the end is just waited for) -/
+def decodeStream (v : Version) : Nat → Bytes → List Packet → List Packet × Bool
+  | 0, _, acc => (acc, false)
+  | fuel + 1, bs, acc =>
+    if bs.isEmpty then (acc, false) else
+    match (match v with | .v4 => V4.decode .broker maxPayload bs | .v5 => V5.decode .broker maxPayload bs) with
+    | .packet p rest => decodeStream v fuel rest (acc ++ [p])
+    | .error .insufficient => (acc, false)
+    | .error _ => (acc, true)
+
+/-- raw bytes from the client of stream `c` (`RemoteLink::start`: `read` + `readv`): the packets
+    decoded before a malformed frame are handed to the router first, then the link ends with the
+    decoder's error -/
+def State.rawBytes (s : State) (c : Nat) (bytes : Bytes) : State :=
+  match s.conn? c with
+  | none => s
+  | some x =>
+    let (ps, bad) := decodeStream x.ver (bytes.length + 1) bytes []
+    let s := ps.foldl (fun s p => (s.clientPacket c p).settle) s
+    if bad then s.malformed c else s
+
+/-- `connclose`: CONNECT, then the peer is gone before the CONNACK can be written: if the router
+    registers the connection, `start()` fails on the CONNACK and the link ends like any broken
+    link (`Event::Disconnect`, will wait); nothing the broker writes is read by anybody -/
+def State.connectGone (s : State) (c : Nat) (ver : Version) (p : Packet) : State :=
+  let s := s.connect c ver p
+  match s.conn? c with
+  | none => s
+  | some x =>
+    let s := s.setConn c { x with queue := [] }
+    if x.isOpen then (s.linkEnds c .ioError).settle else s
+
 /-- keep-alive timers that have run out -/
 def State.expireKeepAlive (s : State) : State :=
   (List.range s.conns.length).foldl (fun s c =>
